@@ -169,3 +169,6 @@ Proof. split; [exact single_target_forms|]. intros. apply single_forms. Qed.
 (* both Dijkstra loops sum their distances in a float accumulator (see Model.acc_float) *)
 Lemma accumulator_float : sp_init_dist_float = true /\ set_init_dist_float = true /\ acc_float = true.
 Proof. repeat split; reflexivity. Qed.
+
+Lemma defaults_hold : default_weights_is_length = true /\ default_export_is_false = true /\ defaults_ok = true.
+Proof. repeat split; reflexivity. Qed.
